@@ -205,8 +205,13 @@ func (e Float64Engine) Add(a Tensor, b Tensor, opts ...FuncOpt) (retVal Tensor, 
 		vecf64.IncrAdd(dataA, dataB, dataReuse)
 		retVal = reuse
 	case toReuse:
-		copy(dataReuse, dataA)
-		vecf64.Add(dataReuse, dataB)
+		if reuse == b {
+			// the destination is the second operand: add the first one into it (copying a over it first would lose b)
+			vecf64.Add(dataReuse, dataA)
+		} else {
+			copy(dataReuse, dataA)
+			vecf64.Add(dataReuse, dataB)
+		}
 		retVal = reuse
 	case !safe:
 		vecf64.Add(dataA, dataB)
